@@ -156,6 +156,74 @@ theorem history_of_fragmented_blocks_sound (blocks : List (Bytes × List Bytes))
         have := ih _ hi' hc' (fun b hb => hv b (by simp [hb])) fs' d'' hrest
         simp only [List.map_cons, specBlocks, hs, this, Option.map_some]
     · cases h
+/-- what happens to a decoder over a connection: a header block arrives in fragments, or the local
+    application changes SETTINGS_HEADER_TABLE_SIZE (`Decoder::queue_size_update`) -/
+inductive HOp where
+  | block (a : Bytes) (frags : List Bytes)
+  | queue (n : Nat)
+
+def histOk (d : Decoder) : List HOp → Option (List (List Header) × Decoder)
+  | [] => some ([], d)
+  | .queue n :: rest => histOk (d.queueSizeUpdate n) rest
+  | .block a frags :: rest =>
+    match (frags.foldl Lemmas.HpackDec.feed (d.decode a)).result with
+    | .ok () => (histOk (frags.foldl Lemmas.HpackDec.feed (d.decode a)).dec rest).map
+                  (fun r => ((frags.foldl Lemmas.HpackDec.feed (d.decode a)).fields :: r.1, r.2))
+    | .error _ => none
+
+def specHist (s : Spec.Hpack.St) : List HOp → Option (List (List Spec.Hpack.Field) × Spec.Hpack.St)
+  | [] => some ([], s)
+  | .queue n :: rest => specHist (Spec.Hpack.setLimit s n) rest
+  | .block a frags :: rest =>
+    match Spec.Hpack.decode s (a ++ frags.flatten) with
+    | .ok (fs, s') => (specHist s' rest).map (fun r => (fs :: r.1, r.2))
+    | .error _ => none
+
+/-- `Decoder::queue_size_update` is the reference's `setLimit` (largest value queued since the last
+    block wins; takes effect when the next block starts) -/
+theorem queue_size_update_refines (d : Decoder) (n : Nat) :
+    Lemmas.HpackDec.abs (d.queueSizeUpdate n) = Spec.Hpack.setLimit (Lemmas.HpackDec.abs d) n := rfl
+
+/-- **whole histories with local SETTINGS_HEADER_TABLE_SIZE changes in between**: as
+    `history_of_fragmented_blocks_sound`, for ANY interleaving of fragmented header blocks and
+    `queue_size_update` calls (any values, repeated, 0 included): if h2's decoder accepts every
+    block, the reference — with `setLimit` at the same points — accepts every uncut block with the
+    same field list and ends in the same state (table, limit, pending limit). -/
+theorem history_with_size_updates_sound (ops : List HOp) (d : Decoder)
+    (hi : Lemmas.HpackDec.Table.Inv d.table) (hc : d.continuing = false)
+    (hv : ∀ a frags, HOp.block a frags ∈ ops → Bytes.Valid (a ++ frags.flatten))
+    (fs : List (List Header)) (d' : Decoder) (h : histOk d ops = some (fs, d')) :
+    specHist (Lemmas.HpackDec.abs d) ops = some (fs, Lemmas.HpackDec.abs d') := by
+  induction ops generalizing d fs d' with
+  | nil => simp only [histOk, Option.some.injEq, Prod.mk.injEq] at h; obtain ⟨rfl, rfl⟩ := h; rfl
+  | cons op rest ih =>
+    cases op with
+    | queue n =>
+      simp only [histOk] at h
+      simp only [specHist, ← queue_size_update_refines]
+      exact ih (d.queueSizeUpdate n) hi hc (fun a f hm => hv a f (by simp [hm])) fs d' h
+    | block a frags =>
+      simp only [histOk] at h
+      split at h
+      · rename_i hr
+        have hvb : Bytes.Valid (a ++ frags.flatten) := hv a frags (by simp)
+        have hs := (fragments_decode_sound d a frags hi hvb hc hr).1
+        have hi' : Lemmas.HpackDec.Table.Inv (frags.foldl Lemmas.HpackDec.feed (d.decode a)).dec.table := by
+          rw [← Lemmas.HpackDec.split_invariance_list d a frags]
+          exact Lemmas.HpackDec.decode_preserves_inv d _ hi
+        have hc' : (frags.foldl Lemmas.HpackDec.feed (d.decode a)).dec.continuing = false := by
+          rw [← Lemmas.HpackDec.split_invariance_list d a frags]
+          exact Lemmas.HpackDec.decode_continuing_false d _
+        cases hrest : histOk (frags.foldl Lemmas.HpackDec.feed (d.decode a)).dec rest with
+        | none => rw [hrest] at h; simp at h
+        | some r =>
+          obtain ⟨fs', d''⟩ := r
+          rw [hrest] at h
+          simp only [Option.map_some, Option.some.injEq, Prod.mk.injEq] at h
+          obtain ⟨rfl, rfl⟩ := h
+          have := ih _ hi' hc' (fun a f hm => hv a f (by simp [hm])) fs' d'' hrest
+          simp only [specHist, hs, this, Option.map_some]
+      · cases h
 end History
 
 open H2V.Model.Hpack in
@@ -215,6 +283,13 @@ example :
 -- the second referring to that entry (index 62), are accepted from the initial state
 open H2V.Model.Hpack in
 example : (blocksOk (Decoder.new 4096) [([130, 64, 1], [[97], [1, 98]]), ([190], [[]])]).isSome = true := by
+  decide +kernel
+
+-- non-vacuity of the history theorem with size updates: a block cut inside a literal, the limit
+-- lowered to 0, then a block that opens with the size update the lowered limit calls for
+open H2V.Model.Hpack in
+example : (histOk (Decoder.new 4096)
+    [.block [130, 64, 1] [[97], [1, 98]], .queue 0, .block [32] [[130]]]).isSome = true := by
   decide +kernel
 
 end H2V.Props.C11
